@@ -32,6 +32,20 @@ def gen_probe(rng, m, info, series):
     return T.tp_from_inst(m, T.inst(m, base) + delta, rng.choice("cow"), tzh, tzm)
 
 
+
+def fuel_for(a):
+    """Fuel for the model's iteration: the Python loops until its early exit, the model needs to be told
+    how far (C13_is_valid_*_unbounded state which fuel suffices: more than (distance / interval))."""
+    m, rec, info, probe = a[:4]
+    info = dict(info)
+    d = info["interval"]
+    if info["reps"] is None and R.is_exact(d) and not R.is_zero(d):
+        secs = abs(T.dur_seconds(d) if d[0] == "U" else d[1] * 7 * 86400)
+        need = abs(T.inst(m, probe) - T.inst(m, info["anchor"])) // max(secs, 1) + 3
+        return int(max(FUEL, min(need, 60000)))
+    return FUEL
+
+
 class RecProbe(Op):
     prop = PROP
     nominal = 0.3
@@ -76,7 +90,7 @@ class IsValid(RecProbe):
     name = "rvalid"
 
     def line(self, a):
-        return "rvalid %s %d %s %s" % (a[0], FUEL, R.rec_line(a[1]), T.tp_str(a[3]))
+        return "rvalid %s %d %s %s" % (a[0], fuel_for(a), R.rec_line(a[1]), T.tp_str(a[3]))
 
     def impl(self, a):
         set_mode(a[0])
@@ -206,7 +220,7 @@ class FirstAfter(RecProbe):
     need_start = True
 
     def line(self, a):
-        return "rfirst %s %d %s %s" % (a[0], FUEL, R.rec_line(a[1]), T.tp_str(a[3]))
+        return "rfirst %s %d %s %s" % (a[0], fuel_for(a), R.rec_line(a[1]), T.tp_str(a[3]))
 
     def impl(self, a):
         set_mode(a[0])
